@@ -307,6 +307,13 @@ func RunConcScenario(sc *Scenario) (vd *Verdict) {
 				return
 			}
 			m.Batch(op.DS, op.Ents)
+		case "dupCore":
+			// the catalogue entry of the dataset gets a legacy duplicate as its newest version
+			if info, err := h.Store.NamespaceManager.GetDatasetNamespaceInfo(); err == nil {
+				if ok, err := h.Dataset("core.Dataset").VerifInjectDuplicate(info.DatasetPrefix+":"+op.DS, time.Now().UnixNano()); err == nil && ok {
+					r.Stats["legacy_duplicates_in_the_catalogue"]++
+				}
+			}
 		case "renameRound":
 			// the dataset is given another name and then its old name back; a client that resolved it before keeps
 			// its handle and writes through it later
@@ -539,6 +546,12 @@ func RunConcScenario(sc *Scenario) (vd *Verdict) {
 			}
 		}
 		if v := checkReads(i + 1); v != nil {
+			fail(v)
+			return
+		}
+	}
+	if sc.Property == "C12" {
+		if v := checkCatalogueLatest(h); v != nil {
 			fail(v)
 			return
 		}
@@ -1024,4 +1037,44 @@ func genC07c(g *G, sc *Scenario, tier string) {
 	}
 	sc.Knobs["schedSeed"] = int64(g.r.Uint64() >> 1)
 	sc.Knobs["preemptPct"] = int64(g.PickInt([]int{20, 50, 80}))
+}
+
+// checkCatalogueLatest: core.Dataset is a dataset like any other: whatever ran (compaction of the catalogue itself
+// included), the listing shows for every entry the newest version its change feed holds, and so does the
+// latest-only feed.
+func checkCatalogueLatest(h *Hub) *Violation {
+	core := h.Dataset("core.Dataset")
+	if core == nil {
+		return nil
+	}
+	ch, err := core.GetChanges(0, 0, false)
+	if err != nil {
+		return viol("C12", "compaction", "catalogue:feed-error", "GetChanges(core.Dataset): %v", err)
+	}
+	newest := map[string]string{}
+	for _, e := range ch.Entities {
+		c := h.Canon(e)
+		newest[c.ID] = c.String()
+	}
+	res, err := core.GetEntities("", 0)
+	if err != nil {
+		return viol("C12", "compaction", "catalogue:listing-error", "GetEntities(core.Dataset): %v", err)
+	}
+	for _, e := range res.Entities {
+		c := h.Canon(e)
+		if n, ok := newest[c.ID]; ok && n != c.String() {
+			return viol("C12", "compaction", "catalogue:latest-view-is-not-the-newest-version", "core.Dataset lists %s although the newest version in its change feed is %s", c.String(), n)
+		}
+	}
+	lt, err := core.GetChanges(0, 0, true)
+	if err != nil {
+		return viol("C12", "compaction", "catalogue:feed-error", "GetChanges(core.Dataset, latest only): %v", err)
+	}
+	for _, e := range lt.Entities {
+		c := h.Canon(e)
+		if n, ok := newest[c.ID]; ok && n != c.String() {
+			return viol("C12", "compaction", "catalogue:latest-only-feed-is-not-the-newest-version", "the latest-only feed of core.Dataset has %s although the newest version in its change feed is %s", c.String(), n)
+		}
+	}
+	return nil
 }
